@@ -857,6 +857,49 @@ def r40_once_chain_collect(text):
     return text, n
 
 
+def r41_rev_index_loops(text):
+    """`for X in V.iter().rev() {` => `let mut r__N = V.len(); while r__N > 0 { r__N -= 1; let X = &V[r__N];` and the `iter_mut()` form with
+    `let X = &mut V[r__N];` (V a field path; Verus has no specification of Rev): the elements are visited from the last to the first.
+    The rewritten header stays on the line of the `for`."""
+    n = 0
+    while True:
+        m = re.search(r'(?m)^([ \t]*)for (\w+) in ((?:\w+\.)*\w+)\.(iter|iter_mut)\(\)\.rev\(\) \{[ \t]*$', text)
+        if not m:
+            return text, n
+        n += 1
+        ind, x, v, how = m.groups()
+        i = f'r__{n}'
+        amp = '&mut ' if how == 'iter_mut' else '&'
+        text = text[:m.start()] + f'{ind}let mut {i} = {v}.len(); while {i} > 0 {{ {i} -= 1; let {x} = {amp}{v}[{i}];' + text[m.end():]
+
+
+def r42_entry_occupied_insert(text):
+    """`if let Entry::Occupied(mut E) = S.entry(K.clone()) {` followed by the statement `E.insert(B);` => `if S.contains_key(&K) {` and
+    `S.insert(K.clone(), B);` (vstd has no specification of the BTreeMap entry API; std documents `Entry::Occupied` as "the key is present" and
+    `OccupiedEntry::insert` as "sets the value of the entry")."""
+    n = 0
+    while True:
+        m = re.search(r'if let Entry::Occupied\(mut (\w+)\) = (\w+)\.entry\((\w+)\.clone\(\)\) \{(\s*)\1\.insert\((\w+)\);', text)
+        if not m:
+            return text, n
+        n += 1
+        e, sc, k, ws, b = m.groups()
+        text = text[:m.start()] + f'if {sc}.contains_key(&{k}) {{{ws}{sc}.insert({k}.clone(), {b});' + text[m.end():]
+
+
+def r43_env_top_level(text):
+    """`Env(vec![E.0[0].clone()])` => `env_top_level(&E)`: an external_body helper of the template standing for "an environment that consists of
+    (a copy of) the outermost scope of E" (the environment is an opaque stand-in in the units that lift arms of compile; that E has an outermost
+    scope - Env::new creates one, pushes and pops are paired - is not checked there)."""
+    n = 0
+    while True:
+        m = re.search(r'\bEnv\(vec!\[(\w+)\.0\[0\]\.clone\(\)\]\)', text)
+        if not m:
+            return text, n
+        n += 1
+        text = text[:m.start()] + f'env_top_level(&{m.group(1)})' + text[m.end():]
+
+
 def r10_windows2(text):
     """`for W in X.windows(2) {` => `for w__N in 0..(if X.len() >= 2 { X.len() - 1 } else { 0 }) { let W = [X[w__N], X[w__N + 1]];`
     (Verus has no specification of slice::Windows; for Copy elements W[0], W[1] read the same values)."""
@@ -918,7 +961,7 @@ def r7_param_patterns(text):
     return _apply_edits(text, edits), n
 
 
-RULES = [('R0', r0_visibility_and_stats), ('R1', r1_ref_patterns), ('R7', r7_param_patterns), ('R28', r28_mut_self), ('R8', r8_assert_eq), ('R9', r9_subslice_copy), ('R10', r10_windows2), ('R38', r38_or_pattern_guard), ('R36', r36_chain_collect), ('R39', r39_find_by_name), ('R40', r40_once_chain_collect), ('R37', r37_opt_slice), ('R11', r11_collect), ('R12', r12_subslice_to_subslice), ('R13', r13_copied_take), ('R15', r15_iter_all_eq), ('R16', r16_map_collect_tail), ('R17', r17_match_arm_ref_guard), ('R18', r18_bool_bitand), ('R20', r20_iter_skip), ('R21', r21_let_map_collect), ('R21b', r21b_let_chain_map_collect), ('R29', r29_map_index), ('R22b', r22b_extend_array_iter), ('R33', r33_extend_map_closure), ('R34', r34_extend_array_call), ('R22', r22_vec_extend), ('R23', r23_range_copy), ('R24', r24_opaque_iter), ('R25', r25_iter_sum), ('R26', r26_slice_iters), ('R27', r27_add_assign_ref), ('R30', r30_iter_mut_enumerate_take), ('R0b', r0b_dead_const_block), ('R35', r35_closure_shapes), ('R31', r31_iter_mut_enum_fields), ('R32', r32_iter_mut_plain), ('R16b', r16b_into_iter_map_block_collect),
+RULES = [('R0', r0_visibility_and_stats), ('R1', r1_ref_patterns), ('R7', r7_param_patterns), ('R28', r28_mut_self), ('R8', r8_assert_eq), ('R9', r9_subslice_copy), ('R10', r10_windows2), ('R38', r38_or_pattern_guard), ('R36', r36_chain_collect), ('R39', r39_find_by_name), ('R40', r40_once_chain_collect), ('R41', r41_rev_index_loops), ('R42', r42_entry_occupied_insert), ('R43', r43_env_top_level), ('R37', r37_opt_slice), ('R11', r11_collect), ('R12', r12_subslice_to_subslice), ('R13', r13_copied_take), ('R15', r15_iter_all_eq), ('R16', r16_map_collect_tail), ('R17', r17_match_arm_ref_guard), ('R18', r18_bool_bitand), ('R20', r20_iter_skip), ('R21', r21_let_map_collect), ('R21b', r21b_let_chain_map_collect), ('R29', r29_map_index), ('R22b', r22b_extend_array_iter), ('R33', r33_extend_map_closure), ('R34', r34_extend_array_call), ('R22', r22_vec_extend), ('R23', r23_range_copy), ('R24', r24_opaque_iter), ('R25', r25_iter_sum), ('R26', r26_slice_iters), ('R27', r27_add_assign_ref), ('R30', r30_iter_mut_enumerate_take), ('R0b', r0b_dead_const_block), ('R35', r35_closure_shapes), ('R31', r31_iter_mut_enum_fields), ('R32', r32_iter_mut_plain), ('R16b', r16b_into_iter_map_block_collect),
          ('R2', r2_array_literal_loops), ('R3', r3_zip_enumerate)]
 
 
